@@ -678,3 +678,27 @@ def overlay_extent_and_precedence(ctx: Ctx, py: PyProgram, rs: RustProgram) -> N
                 ctx.violation("C11.4/overlay-before-readonly", key_of(rel, fn.qual, "read-only test before the overlay dispatch"),
                               f"{fn.qual} tests is_read_only_range before it offers the store to the overlays: a writable overlay mapped inside a read-only range loses every store while loads still come from the overlay", f"{rel}:{r_['ln']}")
     ctx.instance("C11.4/overlay-before-readonly", "Rust store paths that consult both overlays and the read-only map: overlay dispatch dominates the read-only test", m, 1)
+    # (c) loads and stores look an address up in the overlays in the same form: if one path hands the overlay dispatch the address
+    # after the RAM-mirror reduction and the other before it, an overlay inside the mirrored window receives stores it never answers
+    forms: dict[str, tuple] = {}
+    for fn in rs.fns_in(MEM_RS):
+        if fn.impl_ty != "MemoryImage" or fn.body is None:
+            continue
+        for c in walk(fn.body):
+            if c.get("k") == "mcall" and expr_text(c["recv"]) == "self" and c["m"] in ("load_overlay_value", "store_overlay_value") and c["args"]:
+                a0 = c["args"][0]
+                reduced = []
+                if a0.get("k") == "path":
+                    for l_ in walk(fn.body):
+                        if l_.get("k") == "let" and l_.get("pat", {}).get("k") == "p_ident" and l_["pat"]["name"] == a0["p"] and l_.get("ln", 0) < c.get("ln", 0) and l_.get("init") is not None:
+                            reduced += [x["m"] for x in walk(l_["init"]) if x.get("k") == "mcall" and expr_text(x["recv"]) == "self"]
+                else:
+                    reduced = [x["m"] for x in walk(a0) if x.get("k") == "mcall" and expr_text(x["recv"]) == "self"]
+                forms[c["m"]] = (tuple(sorted(set(reduced))), fn.qual, c["ln"])
+    ctx.need({"load_overlay_value", "store_overlay_value"} <= set(forms), "Rust overlay dispatch calls not found")
+    if forms["load_overlay_value"][0] != forms["store_overlay_value"][0]:
+        lo, st_ = forms["load_overlay_value"], forms["store_overlay_value"]
+        ctx.violation("C11.1/overlay-address-form", key_of(rel, "MemoryImage load/store", "overlay lookup address reduced differently"),
+                      f"{lo[1]} looks the overlays up with the address after {list(lo[0]) or 'no reduction'}, {st_[1]} after {list(st_[0]) or 'no reduction'}: an overlay in the window where the two forms differ "
+                      "receives stores but is never read (the byte written is not the byte next read)", f"{rel}:{lo[2]}")
+    ctx.instance("C11.1/overlay-address-form", "Rust load and store paths hand the overlay dispatch the address in the same form", 2, 2)
